@@ -775,6 +775,13 @@ func (fr *oFrame) eval(e ast.Expr) oval {
 			}
 		case constant.Float:
 			return oTop{"float constant " + tv.Value.String()}
+		case constant.String:
+			str := constant.StringVal(tv.Value)
+			arr := make([]oval, len(str))
+			for i := 0; i < len(str); i++ {
+				arr[i] = oInt(str[i])
+			}
+			return oSlice{typ: tv.Type, arr: &arr, lo: 0, hi: len(arr), capEnd: len(arr)}
 		}
 	}
 	switch x := e.(type) {
